@@ -1,4 +1,6 @@
 import PGA.Proofs.UnitsTablesLive
+import PGA.Proofs.UnitsTablesRef
+import PGA.Proofs.UnitsExt
 import PGA.Proofs.UnitsDen
 import PGA.Proofs.UnitsLex
 import PGA.Proofs.Qty
@@ -19,8 +21,9 @@ theorem C10_tab_db_built : ∃ c, buildCfg = .ok c ∧ liveCfg = c := by
   · next c hc => exact ⟨c, hc, rfl⟩
   · next e he => rw [he] at h; exact absurd h (by simp)
 
-/-- Table obligation: the model's database has exactly the keys of the live `units_db` (same order), every key has
-an entry in the hand-written SI reference, and every reference unit is in the database. -/
+/-- Table obligation: the model's database has exactly the keys of the live `units_db` (same order); every key is a
+unit of the hand-written SI reference or a *new* unit consistent with its definition (a unit of the extended reference,
+`PGA/Spec/SIExt.lean`); every reference unit is in the database. -/
 theorem C10_tab_names : checkNames liveCfg = true := by decide +kernel
 
 /-- Table obligation: the live prefix table is the SI prefix table: each SI prefix is present with value `10^k`
@@ -52,6 +55,95 @@ theorem C10_tab_gas_constant : checkGasConstant = true := by decide +kernel
 positive and the snapping threshold is strictly between 0 and 1/2 (hypotheses of the general theorems, discharged
 for the live tables). -/
 theorem C10_tab_db_integral : checkIntegral liveCfg = true := by decide +kernel
+
+/-! ## Units the reference does not know: their meaning is their definition (`PGA/Spec/SIExt.lean`) -/
+
+/-- Table obligation: every unit of the live tables that the SI reference does not know is **new and consistent with
+its definition**: none of its 21 spellings (the name, and each SI prefix before it) had a meaning over the reference
+extended by the new units registered before it — so it takes over, hides or is hidden by nothing (`Eh` ≠ exa-hour,
+`dam` ≠ deci-`am`) —, its definition evaluates over that table to an exact positive magnitude with integer
+exponents, and over the final extended reference the definition string still evaluates to exactly what the unit
+means.  (No new unit: nothing to check.) -/
+theorem C10_tab_new_units_accepted :
+    ∀ x ∈ liveVerdicts, ∃ r, x.2.2 = .accepted r ∧ r ∈ newUnits ∧ r.name = x.1 ∧
+      ∀ s, x.2.1 = .text s → evalStr extCfg s = .ok ⟨.exact r.value, r.dim⟩ := by
+  have h : checkNewAccepted = true := by decide +kernel
+  intro x hx
+  have hacc := (List.all_eq_true.mp h) x hx
+  obtain ⟨n, df, v⟩ := x
+  cases v with
+  | accepted r =>
+    exact ⟨r, rfl, mem_acceptedOf hx, ext_name _ hx r rfl, fun s hs => (ext_defined _ hx s r hs rfl).1⟩
+  | ambiguous s => simp [Verdict.isAccepted] at hacc
+  | badDefinition e => simp [Verdict.isAccepted] at hacc
+  | unsupported => simp [Verdict.isAccepted] at hacc
+  | notAWord => simp [Verdict.isAccepted] at hacc
+
+-- non-vacuity of the verdicts, independent of the live tables: `kWh` is accepted and means 3.6 MJ exactly; `Eh` would take
+-- over exa-hour; `tm` would make `datm` ambiguous; a definition through an unknown name is refused; `amu` inherits `u`'s tolerance
+example : (match judge SI.units ['k', 'W', 'h'] (.text ['3', '.', '6', '*', '1', '0', '^', '6', ' ', 'J']) with
+    | .accepted r => decide (r.value = 3600000 ∧ r.dim = SI.energy ∧ r.tol = 0)
+    | _ => false) = true := by decide +kernel
+example : (match judge SI.units ['E', 'h'] (.text ['J']) with
+    | .ambiguous s => decide (s = ['E', 'h'])
+    | _ => false) = true := by decide +kernel
+example : (match judge SI.units ['t', 'm'] (.text ['k', 'm']) with
+    | .ambiguous s => decide (s = ['d', 'a', 't', 'm'])
+    | _ => false) = true := by decide +kernel
+example : (match judge SI.units ['w', 'k'] (.text ['7', ' ', 'd', 'y']) with
+    | .badDefinition e => decide (e = .unitsParse)
+    | _ => false) = true := by decide +kernel
+example : (match judge SI.units ['a', 'm', 'u'] (.text ['u']) with
+    | .accepted r => decide (r.tol = 1 / 10 ^ 6)
+    | _ => false) = true := by decide +kernel
+
+/-- Table obligation **T1 for new units**: for every new unit `r` and every SI prefix `p = 10^k` (and no prefix), the
+package's `lookup (p ++ r.name)` is an exact magnitude equal to `10^k` times what the definition of `r` means over the
+extended reference (within the tolerance the definition inherits from units tied to measured constants; 0 otherwise)
+with exactly that dimension.  The package evaluated the definition when it registered the unit, against its database
+as it was then: a definition placed before a unit it uses, or a changed unit underneath it, fails here. -/
+theorem C10_tab_new_units : ∀ r ∈ newUnits, ∀ pk ∈ allPrefixes,
+    ResolvesTo liveCfg (pk.1 ++ r.name) ((10 : Rat) ^ pk.2) r :=
+  checkNewUnits_sound checkNewUnits_live
+
+/-- **A fresh unit changes no meaning** (all tables, all expressions): if no spelling of `n` — bare or with a prefix
+of the table — had a meaning over `c`, then after `units_db.add(n, v)` every expression tree of any size that had a
+value has the same value. -/
+theorem C10_new_unit_changes_nothing (c : Cfg) (n : Name) (v : Val) (hf : Fresh c n) (t : Tree) (w : Val)
+    (h : evalTree c t = .ok w) : evalTree (addUnit c n v) t = .ok w :=
+  evalTree_extend (conservative_addUnit v hf) t w h
+
+-- non-vacuity: `kWh` is fresh over the reference
+example : Fresh (cfgOf SI.units) ['k', 'W', 'h'] := fresh_of_firstTaken (by decide +kernel)
+
+/-- **The extended reference is a conservative extension of the reference** — by construction, whatever
+`builtin.py` defines: every text that has a value over the hand-written SI reference has the same value over the
+reference extended by the accepted new units (every name, prefixed name and expression keeps its meaning). -/
+theorem C10_ext_conservative (s : List Char) (w : Val) (h : evalStr (cfgOf SI.units) s = .ok w) :
+    evalStr extCfg s = .ok w :=
+  evalStr_extend ext_conservative s w h
+
+example : evalStr (cfgOf SI.units) ['k', 'J', '/', 'm', 'o', 'l'] =
+    .ok ⟨.exact 1000, ⟨2, 1, -2, 0, 0, -1, 0⟩⟩ := by decide +kernel
+
+/-- Table obligation: the extended reference read through the three-step lookup means what it says: every spelling
+`p ++ name` of a reference unit resolves to `10^k · value` with the unit's dimension — unless it is itself a
+reference unit name (`min`, `ft`), which it then is —, and every spelling of a new unit resolves to `10^k` times what
+the unit means. -/
+theorem C10_tab_ext_spellings :
+    (∀ r ∈ SI.units, ∀ pk ∈ allPrefixes,
+      (find (pk.1 ++ r.name) = none →
+        lookup extCfg (pk.1 ++ r.name) = .ok ⟨.exact ((10 : Rat) ^ pk.2 * r.value), r.dim⟩) ∧
+      (∀ r', find (pk.1 ++ r.name) = some r' → lookup extCfg (pk.1 ++ r.name) = .ok ⟨.exact r'.value, r'.dim⟩)) ∧
+    (∀ r ∈ newUnits, ∀ pk ∈ allPrefixes,
+      lookup extCfg (pk.1 ++ r.name) = .ok ⟨.exact ((10 : Rat) ^ pk.2 * r.value), r.dim⟩) := by
+  refine ⟨fun r hr pk hpk => ?_, checkExtNew_sound (by decide +kernel)⟩
+  have h := checkRefSelf_sound checkRefSelf_holds r hr pk hpk
+  exact ⟨fun hn => ext_conservative.2 _ _ (h.1 hn), fun r' hs => ext_conservative.2 _ _ (h.2 r' hs)⟩
+
+/-- Table obligation: every entry of the extended reference is an exact positive magnitude with integer exponents
+(hypothesis of the general theorems, discharged for the extended reference). -/
+theorem C10_tab_ext_integral : checkIntegral extCfg = true := by decide +kernel
 
 /-! ## T3 — every token list ends in a value, the units parse error or an arithmetic error -/
 
@@ -155,6 +247,78 @@ theorem C10_eval_render_live (e : SExpr) (hwf : e.WF) (hint : e.IntPows) :
     | .ok v => evalTokens liveCfg (render e) = .ok v.toVal
     | .error err => evalTokens liveCfg (render e) = .error err :=
   C10_eval_render liveCfg liveCfg_good e hwf hint
+
+/-- **T2 over the extended reference**: every well-formed tree with integer powers over the reference extended by
+the new units evaluates to the value its tree denotes under the extended reference. -/
+theorem C10_eval_render_ext (e : SExpr) (hwf : e.WF) (hint : e.IntPows) :
+    match den extCfg e with
+    | .ok v => evalTokens extCfg (render e) = .ok v.toVal
+    | .error err => evalTokens extCfg (render e) = .error err :=
+  C10_eval_render extCfg (checkIntegral_sound C10_tab_ext_integral) e hwf hint
+
+/-! ### the package agrees with the extended reference on every expression over exactly defined units -/
+
+theorem absR_eq_zero {x : Rat} (h : absR x ≤ 0) : x = 0 := by
+  unfold absR at h
+  split at h <;> linarith
+
+theorem admits_exact {r : Ref} {k v : Rat} (ht : r.tol = 0) (h : r.admits k v = true) : v = k * r.value := by
+  simp only [Ref.admits, ht, zero_mul, decide_eq_true_eq] at h
+  have := absR_eq_zero h
+  linarith
+
+/-- `s` is a spelling `p ++ name` (or `name`) of a unit of the extended reference that is defined exactly
+(tolerance 0: not tied to a measured constant or a rounded decimal), and if it is itself a unit name, that unit is -/
+def isExactSpelling (s : Name) : Bool :=
+  extUnits.any fun r => decide (r.tol = 0) && allPrefixes.any fun pk => decide (s = pk.1 ++ r.name) &&
+    (match find s with
+     | some r' => decide (r'.tol = 0)
+     | none => true)
+
+/-- Table obligation: the snapping threshold of the package is the documented `10⁻⁷` of the reference. -/
+theorem C10_tab_threshold : liveCfg.thr = extCfg.thr := by decide +kernel
+
+/-- On every exact spelling the package's database and the extended reference agree **exactly** (magnitude as a
+rational, all seven exponents) — consequence of T1, T1 for new units and the reference's self-consistency. -/
+theorem C10_exact_spellings_agree (s : Name) (h : isExactSpelling s = true) : lookup liveCfg s = lookup extCfg s := by
+  simp only [isExactSpelling, List.any_eq_true, Bool.and_eq_true, decide_eq_true_eq] at h
+  obtain ⟨r, hr, htol, pk, hpk, hs, hcol⟩ := h
+  rcases List.mem_append.mp hr with hr | hr
+  · have h1 := checkAllUnits_sound checkAllUnits_live r hr pk hpk
+    have h2 := C10_tab_ext_spellings.1 r hr pk hpk
+    rw [← hs] at h1 h2
+    cases hf : find s with
+    | none =>
+      obtain ⟨v, dm, hl, hd, ha⟩ := h1.1 hf
+      rw [hl, h2.1 hf, hd, admits_exact htol ha]
+    | some r' =>
+      rw [hf] at hcol
+      have ht' : r'.tol = 0 := by simpa using hcol
+      obtain ⟨v, dm, hl, hd, ha⟩ := h1.2 r' hf
+      rw [hl, h2.2 r' hf, hd, admits_exact ht' ha, one_mul]
+  · obtain ⟨v, dm, hl, hd, ha⟩ := C10_tab_new_units r hr pk hpk
+    rw [hs, hl, C10_tab_ext_spellings.2 r hr pk hpk, hd, admits_exact htol ha]
+
+/-- **Lifting to all expressions**: every syntax tree of any size — products, quotients, integer, negative and
+fractional powers — all of whose names are exact spellings evaluates in the package's database to exactly what it
+evaluates to over the extended reference: the same value or the same error. -/
+theorem C10_live_eq_ext_tree (t : Tree) (h : ∀ s ∈ t.names, isExactSpelling s = true) :
+    evalTree liveCfg t = evalTree extCfg t :=
+  evalTree_congr C10_tab_threshold t (fun s hs => C10_exact_spellings_agree s (h s hs))
+
+/-- … and so does every token list of any length (parser included). -/
+theorem C10_live_eq_ext (ts : List Tok)
+    (h : ∀ t, parseTokens ts = .ok t → ∀ s ∈ t.names, isExactSpelling s = true) :
+    evalTokens liveCfg ts = evalTokens extCfg ts := by
+  simp only [evalTokens, bind, Except.bind]
+  cases hp : parseTokens ts with
+  | error e => rfl
+  | ok t => exact C10_live_eq_ext_tree t (h t hp)
+
+-- non-vacuity: `kJ / (mol K)` parses, and `kJ`, `mol`, `K` are exact spellings
+example : (match parseTokens [Tok.word ['k', 'J'], .sym '/', .sym '(', .word ['m', 'o', 'l'], .word ['K'], .sym ')'] with
+    | .ok t => t.names.all isExactSpelling
+    | .error _ => false) = true := by decide +kernel
 
 -- non-vacuity: `(k m / s ^ (-2)) 3` is well formed with integer powers
 example : (SExpr.bin (.paren (.bin (.name ['k'] none) .juxt (.bin (.name ['m'] none) .over
